@@ -635,7 +635,11 @@ func checkC18(c any, r *Rec) error {
 		var want string
 		switch {
 		case in.IsIntKind() && p.IsIntKind():
-			want = strconv.FormatInt(in.Int()+p.Int(), 10)
+			sum := in.Int() + p.Int()
+			if (in.Int() > 0 && p.Int() > 0 && sum < 0) || (in.Int() < 0 && p.Int() < 0 && sum >= 0) {
+				return skipf("sum outside int64 (Python would not wrap, Go does)")
+			}
+			want = strconv.FormatInt(sum, 10)
 		case (in.IsIntKind() || in.IsFloatKind()) && (p.IsIntKind() || p.IsFloatKind()):
 			a, b := in.Float(), p.Float()
 			if in.IsIntKind() {
@@ -1021,6 +1025,10 @@ func genC18(t *rapid.T) *c18Case {
 		gen := func(l string) Val {
 			switch drawInt(t, 0, 3, l+".k") {
 			case 0, 1:
+				if drawInt(t, 0, 5, l+".huge") == 0 {
+					// integers that float64 cannot hold exactly (beyond 2^53) and the int64 extremes
+					return Val{K: "int64", I: pick(t, l+".h", []int64{9007199254740993, -9007199254740993, 1 << 62, -(1 << 62), 9223372036854775807, -9223372036854775808, 4611686018427387905, 3, -2})}
+				}
 				return vInt(drawInt(t, -50, 50, l))
 			case 2:
 				return vF64(float64(drawInt(t, -40, 40, l)) / 8)
